@@ -151,6 +151,8 @@ def nontrivial(case):
 
 
 def shrink_candidates(case):
+    if case.get("kind") == "real":
+        return       # real-process scripts are few, short and slow (a stuck one costs three watchdog periods per run)
     ids = case["ids"]
     for k in range(len(ids)):
         rest = ids[:k] + ids[k + 1:]
@@ -175,7 +177,7 @@ def search_harder(rng, bad_cases):
 
 MANIFEST = dict(
     design_ref='6/C08',
-    text="Coq theorems over all scripts (sequences of recording ids with a per-recording behaviour: equal, different, player / extractor / comparator raises, bare status, worker exits, hangs, answers late, slow, answer lost in transit, worker dies before taking the task), all recycle rates, timeouts and keep-results settings, about a hand-written model of run_comparison, the dispatch/wait/timeout/recycle logic and the worker loop with explicit task queue, result queue, worker table and terminate flag: one comparison per id in input order with the right label (even with late answers); without late answers, stale tasks and lost answers the whole output is the map of the single-recording verdict (failures local, EqualizerFailure for every fault kind); dedicated and in-process modes agree; the late-answer, stale-task and lost-answer (read lock held by a killed idle worker) clauses are refuted with witnesses (known finding F08, three signatures) and the full statement is proved for the candidate repair (fresh queues per worker). Model tied to /repo on every run by running the REAL Equalizer single-threaded over fake multiprocessing/clock/kill on generated scripts and comparing every yielded comparison with the model by vm_compute; direct predicate: labels/order/count, attached replay belongs to the labelled id, verdict equals that recording played alone, failures become EqualizerFailure for that recording only, both modes agree; thorough tier adds real-process scripts.",
+    text="Coq theorems over all scripts (sequences of recording ids with a per-recording behaviour: equal, different, player / extractor / comparator raises, bare status, worker exits, hangs, answers late, slow, answer lost in transit, worker dies before taking the task, answer that the parent cannot load or that the worker sent as (False, message)), all recycle rates, timeouts and keep-results settings, about a hand-written model of run_comparison, the dispatch/wait/timeout/recycle logic and the worker loop with explicit task queue, result queue, worker table and terminate flag: one comparison per id in input order with the right label (even with late answers); without late answers, stale tasks and lost answers the whole output is the map of the single-recording verdict (failures local, EqualizerFailure for every fault kind); dedicated and in-process modes agree; the late-answer, stale-task and lost-answer (read lock held by a killed idle worker) clauses are refuted with witnesses (known finding F08, three signatures) and the full statement is proved for the candidate repair (fresh queues per worker). Model tied to /repo on every run by running the REAL Equalizer single-threaded over fake multiprocessing/clock/kill on generated scripts and comparing every yielded comparison with the model by vm_compute; direct predicate: labels/order/count, attached replay belongs to the labelled id, verdict equals that recording played alone, failures become EqualizerFailure for that recording only, both modes agree; thorough tier adds real-process scripts.",
     note='Trusted: Coq kernel + vm_compute; hand-written model; the scheduling implemented by the fake multiprocessing layer (one resolution of each race; real interleavings, pickling across the pipe and a worker killed while holding a queue lock are runtime residue, sampled by the real-process scripts); os.kill succeeds. Late answers / stale tasks / lost answers are known finding F08 (probe streams, KNOWN-FINDING lines).',
     technique='Coq proof (invariant over the parent loop, induction over scripts and over the wait loop) + model/implementation correspondence by vm_compute over a deterministic multiprocessing simulator + real-process sampling',
 )
